@@ -200,6 +200,7 @@ def tlc_cmd(module, cfg, metadir, workers=1, xmx="2g", extra=()):
           else ["-XX:+UseParallelGC", "-XX:ParallelGCThreads=4", "-Xmn512m"])
     return ["java"] + gc + ["-XX:-UsePerfData", "-Xmx" + xmx, "-Xss64m",
             "-cp", TLC_JAR, "tlc2.TLC", "-workers", str(workers), "-metadir", metadir, "-noGenerateSpecTE",
+            "-checkpoint", "0",      # no checkpoints: TLC cannot checkpoint a behaviour of 65536 or more states (a long trace) and dies trying
             "-config", cfg] + list(extra) + [module]
 
 
@@ -244,13 +245,14 @@ def split_file(path, n, outdir, prefix):
     with open(path) as f:
         lines = f.readlines()
     n = max(1, min(n, (len(lines) + 199) // 200))
+    n = max(n, (len(lines) + 49999) // 50000)          # a trace is one behaviour: keep it well below TLC's limit of 65535 states
     per = (len(lines) + n - 1) // n if lines else 1
     outs = []
     for i in range(n):
         chunk = lines[i * per:(i + 1) * per]
         if not chunk:
             continue
-        p = os.path.join(outdir, "%s.%02d.ndjson" % (prefix, i))
+        p = os.path.join(outdir, "%s.%03d.ndjson" % (prefix, i))
         with open(p, "w") as f:
             f.writelines(chunk)
         outs.append(p)
